@@ -86,6 +86,18 @@ pub fn run(ctx: &Ctx) -> i32 {
                 v
             };
             let bytes = encode(&compile_with(&sp, &mut rng, &v, &palprog)).0;
+            if j % 2 == 1 {
+                // a load that fails (the same encoding cut short / with a damaged tail) right before, on the same thread:
+                // what an encoding loads as does not depend on what was loaded before it
+                let cut = &bytes[..bytes.len() * 3 / 4];
+                let mut damaged = bytes.clone();
+                let n = damaged.len();
+                for q in 0..(n / 16).max(1) {
+                    damaged[n - 1 - q * 3 % (n / 2).max(1)] ^= 0xa5;
+                }
+                let failed = load(cut).is_err() as u64 + guarded(|| load(&damaged).is_err()).unwrap_or(true) as u64;
+                res.count("failing_loads_before_an_encoding", failed);
+            }
             res.count(&format!("choice:{}", if v.describe().contains('+') { "combined".to_string() } else { v.describe() }), 1);
             res.count("encodings", 1);
             match load(&bytes) {
